@@ -333,6 +333,11 @@ class Expr:
             return Expr([Term(sp.Pow(t.coeff, e), tuple((a, x * e) for a, x in t.atoms))])
         if not self.terms:
             return Expr.zero()
+        if e.is_Integer and 1 <= int(e) <= 4:
+            out = self
+            for _ in range(int(e) - 1):
+                out = out * self
+            return out
         return Expr.atom(("pow", self), e)
 
     def inv(self):
